@@ -501,7 +501,7 @@ class battery_implicit(battery):
 
         if u[1] - self.V_ref[0] <= 0 or t >= t_switch:
             self.A[0, 0] = -(self.Rs + self.R) / self.L
-            non_f[0] = self.Vs
+            non_f[0] = self.Vs / self.L
 
         else:
             self.A[1, 1] = -1 / (self.C[0] * self.R)
@@ -539,7 +539,7 @@ class battery_implicit(battery):
 
         if rhs[1] - self.V_ref[0] <= 0 or t >= t_switch:
             self.A[0, 0] = -(self.Rs + self.R) / self.L
-            non_f[0] = self.Vs
+            non_f[0] = self.Vs / self.L
 
         else:
             self.A[1, 1] = -1 / (self.C[0] * self.R)
